@@ -101,7 +101,7 @@ pub fn to_geo(g: &G, t: &Xf) -> Geometry<f64> {
         G::MultiLineString(v) => Geometry::MultiLineString(MultiLineString::new(v.iter().map(|l| ls(l, t)).collect())),
         G::MultiPolygon(v) => Geometry::MultiPolygon(MultiPolygon::new(v.iter().map(|p| poly(p, t)).collect())),
         G::Rect(a, b) => Geometry::Rect(Rect::new(t.apply(*a), t.apply(*b))),
-        G::Triangle(a, b, c) => Geometry::Triangle(Triangle::new(t.apply(*a), t.apply(*b), t.apply(*c))),
+        G::Triangle(a, b, c) => Geometry::Triangle(Triangle(t.apply(*a), t.apply(*b), t.apply(*c))),
         G::Coll(v) => Geometry::GeometryCollection(GeometryCollection::new_from(v.iter().map(|g| to_geo(g, t)).collect())),
     }
 }
